@@ -256,8 +256,9 @@ RefExec(c, env, mem, block, i) ==
 \* "### Interaction with unions" / the property: every member (combination) evaluated separately,
 \* the result is the union of the results
 RefRuns(c, env) ==
-    {RefExec(c, env, [v \in Vars |-> IF v = "a" THEN ma ELSE mb], Tree(c), 1) :
-        ma \in RefParamType(c, "a"), mb \in RefParamType(c, "b")}
+    LET tree == Tree(c)
+    IN {RefExec(c, env, [v \in Vars |-> IF v = "a" THEN ma ELSE mb], tree, 1) :
+           ma \in RefParamType(c, "a"), mb \in RefParamType(c, "b")}
 RefObs(c, env) ==
     LET runs == RefRuns(c, env)
     IN [types |-> {IF r.ret = "fall" THEN FallLabel(c) ELSE r.ret : r \in runs},
@@ -444,14 +445,14 @@ ImplBlock(c, env, vars, block, i, possible, F) ==
 \* Evaluator.evaluate / EvaluateVisitor.run / _evaluate_ret (:275, :611-622)
 ImplRun(c, env, F) ==
     ImplBlock(c, env, [v \in Vars |-> ImplParamType(c, v, F)], Tree(c), 1, << >>, F)
-ImplObsF(c, env, F) ==
-    LET r == ImplRun(c, env, F)
-    IN [types |-> {IF x = "none" THEN FallLabel(c) ELSE x : x \in ToSet(r.rets)}, errs |-> ToSet(r.errs)]
+ObsOfRun(c, r) == [types |-> {IF x = "none" THEN FallLabel(c) ELSE x : x \in ToSet(r.rets)}, errs |-> ToSet(r.errs)]
+ImplObsF(c, env, F) == ObsOfRun(c, ImplRun(c, env, F))
 ImplObs(c, env) == ImplObsF(c, env, NoFix)
 ImplErrSeq(c, env) == ImplRun(c, env, NoFix).errs
 \* what the visitor reports for the call: show_error de-duplicates per (node, code)
 \* (node_visitor.py:634), every error of the evaluator is attached to the call node
-ImplDiag(c, env) == LET e == ImplErrSeq(c, env) IN IF e = << >> THEN << >> ELSE << e[1] >>
+DiagOf(e) == IF e = << >> THEN << >> ELSE << e[1] >>
+ImplDiag(c, env) == DiagOf(ImplErrSeq(c, env))
 
 (***************************************************************************)
 (* Known deviations of the implementation from the specification           *)
